@@ -57,6 +57,16 @@ def run(ctx):
                     for e in [x for x in p.effects if x.kind == "write" and x.item == CFG]:
                         mb = field_of(e.value, "min_bond")
                         good = mb[0] == "call" and mb[1] == "max" and set(mb[2]) == {("field", ("param", "msg"), "min_bond"), ("lit", 1)}
+                        if not good:
+                            # the same maximum spelled as a branch: 1 where the request was decided zero, the request where it was not
+                            req = ("field", ("param", "msg"), "min_bond")
+                            zero = [c[1] for c in p.conds if c[0][0] == "call" and c[0][1].endswith("is_zero") and c[0][2][0] == req and isinstance(c[1], bool)]
+                            facts_ = order_facts(p.conds)
+                            le1 = any(lo == req and hi == ("lit", 1) for lo, hi, strict, c in facts_) or \
+                                any(lo == req and hi == ("lit", 0) and not strict for lo, hi, strict, c in facts_) or zero == [True]
+                            ge1 = any(lo == ("lit", 1) and hi == req and not strict for lo, hi, strict, c in facts_) or \
+                                any(lo == ("lit", 0) and hi == req and strict for lo, hi, strict, c in facts_) or zero == [False]
+                            good = (mb == ("lit", 1) and le1) or (mb == req and ge1)
                         ctx.ob("R10.1", "instantiate/min_bond >= 1", good, sites=[e.site],
                                detail="CONFIG.min_bond is %s, not max(msg.min_bond, 1): a zero stake could be a member" % show(mb)[:120],
                                sample={"min_bond": show(mb)[:120]})
